@@ -291,6 +291,23 @@ def run(check):
             extra.append({"program": p, "scripts": scripts, "input": inp, "shape": "corrupted:%s" % kind, "outcome": {}, "pair": None, "corruption": kind})
             ncor += 1
     check.extra["illtyped_corruptions_run"] = ncor
+    # one Executor object used for several workflows in which the same expression text has different types: each workflow is
+    # typed with its own declarations (the second is ill-typed and must be refused - or, if accepted, must not end in an
+    # internal consistency error)
+    from ..model import InputSchema
+    exec_seq = []
+    for j, (t1, t2, field) in enumerate([("integer", "string", "n"), ("integer", ("object", "D", {"x": {"type": "integer"}}), "n"), ("string", "integer", "tag"), ("bool", "string", "b"), (("list", "string"), "string", "l"),
+                                         ("string", ("list", "string"), "tag")]):
+        def prog_for(t):
+            a = gen.plugin_step("a", Expr(In("tag")) if field != "tag" else Expr(In("d")))
+            if field != "tag":
+                a.fields["input"][field] = Expr(In("d"))
+            return Program([a], {"success": {"a": gen.tagref("a")}}, InputSchema({"tag": {"type": "string"}, "d": {"type": t}}))
+        val = {"integer": 5, "string": "text", "bool": True}
+        def doc(t):
+            return {"tag": "T", "d": val[t] if isinstance(t, str) else ({"x": 1} if t[0] == "object" else ["a", "b"])}
+        seq = [{"files": prog_for(t1).files(), "input": doc(t1)}, {"files": prog_for(t2).files(), "input": doc(t2)}, {"files": prog_for(t1).files(), "input": doc(t1)}]
+        exec_seq.append(({"id": "c08-x%03d" % j, "mode": "seq", "files": {}, "scripts": {}, "runs": [], "extra": {"sequence": seq, "share_executor": True}, "no_events": True}, "%s then %s into `%s`" % (t1, t2, field)))
     items = []
     for i, g in enumerate(gs + extra):
         if g.get("corruption") or g.get("drift"):
@@ -304,6 +321,23 @@ def run(check):
     table = {}
     with harness.Runner() as rn:
         out = rn.run_cases([c for c, _s, _g in items])
+        xout = rn.run_cases([c for c, _w in exec_seq])
+    for case, what in exec_seq:
+        o = xout.get(case["id"], {})
+        check.count()
+        runs = (o.get("result") or {}).get("runs") or []
+        if "death" in o or len(runs) != 3:
+            check.inconclusive_case(case["id"], str(o.get("death", {}).get("key") or "sequence incomplete"))
+            continue
+        if runs[0].get("out_id") != "success" or runs[2].get("out_id") != "success":
+            check.report("executor@well-typed-refused", "one Executor, %s: the well-typed workflow did not run (%s / %s)" % (what, (runs[0].get("err") or "")[:150], (runs[2].get("err") or "")[:150]), {"case": case})
+        r = runs[1]
+        if r.get("err_type") not in ("parse", "prepare"):
+            if "bug:" in (r.get("err") or "").lower():
+                check.report("bug@accepted-illtyped:second-use-of-executor", "one Executor, %s: the ill-typed second workflow was accepted and its run ended in an internal consistency error: %s" % (what, r["err"][:300]), {"case": case})
+            elif r.get("out_id"):
+                check.report("accepted@illtyped:second-use-of-executor", "one Executor, %s: the ill-typed second workflow was accepted and ran to %r" % (what, r.get("out_id")), {"case": case})
+        check.nontrivial("executor-seq|" + what)
     by_id = {c["id"]: (c, s, g) for c, s, g in items}
     for cid in sorted(out):
         o = out[cid]
